@@ -94,3 +94,14 @@ func AV(e *env.Env, v sdk.ValAddress) types.AllianceValidator {
 }
 
 var _ = time.Second
+
+// ErrNote records the error text of a failed operation in the native replay output.
+func ErrNote(err error) {
+	if err != nil && !nd.Symbolic() {
+		nd.Note(err.Error())
+	}
+}
+
+func stakingDelegation(del sdk.AccAddress, val sdk.ValAddress, shares math.LegacyDec) stakingtypes.Delegation {
+	return stakingtypes.NewDelegation(del.String(), val.String(), shares)
+}
